@@ -20,7 +20,6 @@ import (
 	"verif/internal/harness"
 	"verif/internal/keys"
 	"verif/internal/reflog"
-	"verif/internal/world"
 )
 
 // RouteCase: a contiguous shard list served by one front-end instance per shard, and certificates
@@ -106,13 +105,17 @@ func checkRoute(t *testing.T, c RouteCase) (v harness.Verdict) {
 	var insts []*ctfex.Instance
 	var bes []*reflog.Log
 	var logIDs [][32]byte
+	_, trusted := trustFor(c.Chain, c.NotAfter)
+	if c.Chain.Lone {
+		v.Class("chain:lone-root")
+	}
 	for i, w := range sh {
 		w := w
 		k := keys.Pick("p256", 30+i)
 		be := reflog.New(int64(7000+i), 1)
-		inst, err := ctfex.New(ctfex.Opts{LogKey: k, Roots: world.Roots(), Backend: be, LogID: int64(7000 + i), Cfg: func(lc *configpb.LogConfig) {
+		inst, err := newInstance(ctfex.Opts{LogKey: k, Roots: trusted, Backend: be, LogID: int64(7000 + i), Cfg: func(lc *configpb.LogConfig) {
 			lc.NotAfterStart, lc.NotAfterLimit = ts(w.Start), ts(w.Limit)
-		}})
+		}}, c.Chain.Lone && i == len(sh)-1)
 		if err != nil {
 			v.Failf("ctfe-valid-window-refused", "instance set-up refuses the window of shard %d %v: %v", i, w, err)
 			return v
